@@ -770,6 +770,7 @@ package gtfs
 //@   ensures [error-iff-not-protobuf] result.1 == nil <==> pbOK(bytesOf(content))
 //@   ensures [fresh-result] result.0 != nil ==> fresh(result.0)
 //@   ensures [trips-sorted-by-identifier] result.0 != nil ==> (forall a int, b int :: 0 <= a && a < b && b < len(result.0.Trips) ==> !result.0.Trips[b].ID.Less(result.0.Trips[a].ID))
+//@   ensures [vehicles-unique-by-identifier] result.0 != nil ==> (forall a int, b int :: 0 <= a && a < len(result.0.Vehicles) && 0 <= b && b < len(result.0.Vehicles) && a != b && result.0.Vehicles[a].ID != nil && result.0.Vehicles[b].ID != nil ==> *result.0.Vehicles[a].ID != *result.0.Vehicles[b].ID)
 //@   ensures [trips-unique-by-identifier] result.0 != nil ==> (forall a int, b int :: 0 <= a && a < len(result.0.Trips) && 0 <= b && b < len(result.0.Trips) && a != b ==> result.0.Trips[a].ID != result.0.Trips[b].ID)
 //@   assigns nothing
 //@   loop 1 invariant [ctx] opts != nil && extOK(opts.Extension) && feedMessage != nil && fresh(feedMessage) && fresh(shouldSkip) && len(shouldSkip) == len(feedMessage.Entity) && feedMessage.Entity == pre(feedMessage.Entity)
@@ -778,13 +779,23 @@ package gtfs
 //@   loop 2 invariant [maps] tripsById != nil && vehiclesByID != nil && tripIDToVehicleID != nil && vehicleIDToTripID != nil && tripIDToVehicleWithNoID != nil && fresh(tripsById) && fresh(vehiclesByID) && fresh(tripIDToVehicleID) && fresh(vehicleIDToTripID) && fresh(tripIDToVehicleWithNoID) && fresh(vehiclesWithNoID)
 //@   loop 2 invariant [trips-on-heap] forall t TripID :: has(tripsById, t) ==> tripsById[t] != nil && fresh(tripsById[t])
 //@   loop 2 invariant [vehicles-on-heap] forall v VehicleID :: has(vehiclesByID, v) ==> vehiclesByID[v] != nil && fresh(vehiclesByID[v]) && vehiclesByID[v].ID != nil
-//@   loop 2 invariant [idless-on-heap] forall k int :: 0 <= k && k < len(vehiclesWithNoID) ==> vehiclesWithNoID[k] != nil && fresh(vehiclesWithNoID[k])
+//@   loop 2 invariant [idless-on-heap using idless-list-grows-only-by-this-vehicle idless-list-kept] forall k int :: 0 <= k && k < len(vehiclesWithNoID) ==> vehiclesWithNoID[k] != nil && fresh(vehiclesWithNoID[k])
 //@   loop 2 invariant [idless-links] forall t TripID :: has(tripIDToVehicleWithNoID, t) ==> has(tripsById, t) && tripIDToVehicleWithNoID[t] != nil && fresh(tripIDToVehicleWithNoID[t])
 //@   loop 2 invariant [trips-keyed-by-own-id] forall t TripID :: has(tripsById, t) ==> tripsById[t].ID == t
 //@   loop 2 step [association-by-vehicle-id-is-recorded-both-ways] trip#*Trip != nil && vehicle != nil && vehicle.ID != nil ==> has(tripIDToVehicleID, trip#*Trip.ID) && tripIDToVehicleID[trip#*Trip.ID] == *vehicle.ID && has(vehicleIDToTripID, *vehicle.ID) && vehicleIDToTripID[*vehicle.ID] == trip#*Trip.ID
 //@   loop 2 step [association-with-an-idless-vehicle-is-recorded] trip#*Trip != nil && vehicle != nil && vehicle.ID == nil ==> has(tripIDToVehicleWithNoID, trip#*Trip.ID) && tripIDToVehicleWithNoID[trip#*Trip.ID] == vehicle
 //@   loop 2 step [no-association-no-record] (trip#*Trip == nil || vehicle == nil) ==> (forall t TripID :: has(tripIDToVehicleID, t) == athead(2, has(tripIDToVehicleID, t)) && has(tripIDToVehicleWithNoID, t) == athead(2, has(tripIDToVehicleWithNoID, t)))
-//@   loop 2 invariant [links-unresolved-until-the-end] (forall t TripID :: has(tripsById, t) ==> tripsById[t].Vehicle == nil) && (forall v VehicleID :: has(vehiclesByID, v) ==> vehiclesByID[v].Trip == nil)
+//@   loop 2 step [vehicle-entry-keyed-by-its-id] vehicle != nil && vehicle.ID != nil ==> has(vehiclesByID, *vehicle.ID) && *vehiclesByID[*vehicle.ID].ID == *vehicle.ID
+//@   loop 2 step [other-vehicle-keys-keep-their-entry] forall v VehicleID :: (vehicle == nil || vehicle.ID == nil || v != *vehicle.ID) ==> has(vehiclesByID, v) == athead(2, has(vehiclesByID, v)) && vehiclesByID[v] == athead(2, vehiclesByID[v])
+//@   loop 2 step [other-vehicle-entries-are-other-cells] forall v VehicleID :: vehicle != nil && vehicle.ID != nil && v != *vehicle.ID && has(vehiclesByID, v) ==> vehiclesByID[v] != vehiclesByID[*vehicle.ID]
+//@   loop 2 step [other-vehicle-entries-keep-their-id] forall v VehicleID :: (vehicle == nil || vehicle.ID == nil || v != *vehicle.ID) && has(vehiclesByID, v) ==> *vehiclesByID[v].ID == athead(2, *vehiclesByID[v].ID)
+//@   loop 2 step [idless-list-grows-only-by-this-vehicle] (vehicle != nil && vehicle.ID == nil ==> len(vehiclesWithNoID) == athead(2, len(vehiclesWithNoID)) + 1 && vehiclesWithNoID[len(vehiclesWithNoID) - 1] == vehicle) && ((vehicle == nil || vehicle.ID != nil) ==> len(vehiclesWithNoID) == athead(2, len(vehiclesWithNoID)))
+//@   loop 2 step [idless-list-kept] forall k int :: 0 <= k && k < athead(2, len(vehiclesWithNoID)) ==> vehiclesWithNoID[k] == athead(2, vehiclesWithNoID[k])
+//@   loop 2 step [idless-vehicles-untouched] forall k int :: 0 <= k && k < athead(2, len(vehiclesWithNoID)) ==> vehiclesWithNoID[k].ID == athead(2, vehiclesWithNoID[k].ID)
+//@   loop 2 invariant [links-unresolved-until-the-end using none] (forall t TripID :: has(tripsById, t) ==> tripsById[t].Vehicle == nil) && (forall v VehicleID :: has(vehiclesByID, v) ==> vehiclesByID[v].Trip == nil)
+//@   loop 2 invariant [vehicles-keyed-by-own-id using vehicle-entry-keyed-by-its-id other-vehicle-keys-keep-their-entry other-vehicle-entries-keep-their-id] forall v VehicleID :: has(vehiclesByID, v) ==> *vehiclesByID[v].ID == v
+//@   loop 2 invariant [idless-vehicles-have-no-id using idless-list-grows-only-by-this-vehicle idless-list-kept idless-vehicles-untouched] forall k int :: 0 <= k && k < len(vehiclesWithNoID) ==> vehiclesWithNoID[k].ID == nil
+//@   loop 2 invariant [idless-vehicles-are-not-table-entries using idless-list-grows-only-by-this-vehicle idless-list-kept other-vehicle-keys-keep-their-entry] forall k int, v VehicleID :: 0 <= k && k < len(vehiclesWithNoID) && has(vehiclesByID, v) ==> vehiclesWithNoID[k] != vehiclesByID[v]
 //@   loop 3 invariant [ctx] opts != nil && extOK(opts.Extension) && feedMessage != nil && fresh(result.Alerts) && tripsById != nil && fresh(tripsById) && len(result.Trips) == 0 && cap(result.Trips) == 0 && len(result.Vehicles) == 0 && cap(result.Vehicles) == 0
 //@   loop 3 invariant [trips-on-heap] forall t TripID :: has(tripsById, t) ==> tripsById[t] != nil && fresh(tripsById[t])
 //@   loop 3 invariant [idless-links] forall t TripID :: has(tripIDToVehicleWithNoID, t) ==> has(tripsById, t) && tripIDToVehicleWithNoID[t] != nil && fresh(tripIDToVehicleWithNoID[t])
@@ -797,10 +808,13 @@ package gtfs
 //@   loop 3 invariant [alert-trips-are-mentions] forall k int :: 0 <= k && k < len(alertTrips) ==> !alertTrips[k].IsEntityInMessage && alertTrips[k].Vehicle == nil
 //@   loop 3 invariant [alert-trips-stored-apart] cap(alertTrips) == 0 || (forall t TripID :: has(tripsById, t) ==> obj(tripsById[t]) != obj(alertTrips))
 //@   loop 3 invariant [links-unresolved-until-the-end] forall t TripID :: has(tripsById, t) ==> tripsById[t].Vehicle == nil
+//@   loop 3 invariant [vehicles-keyed-by-own-id] forall v VehicleID :: has(vehiclesByID, v) ==> *vehiclesByID[v].ID == v
 //@   loop 4 invariant [empty-lists] len(result.Trips) == 0 && cap(result.Trips) == 0 && len(result.Vehicles) == 0 && cap(result.Vehicles) == 0
 //@   loop 4 invariant [trips-on-heap] forall t TripID :: has(tripsById, t) ==> tripsById[t] != nil && fresh(tripsById[t])
 //@   loop 4 invariant [idless-links] forall t TripID :: has(tripIDToVehicleWithNoID, t) ==> has(tripsById, t) && tripIDToVehicleWithNoID[t] != nil && fresh(tripIDToVehicleWithNoID[t])
 //@   loop 4 invariant [trips-keyed-by-own-id] forall t TripID :: has(tripsById, t) ==> tripsById[t].ID == t
+//@   loop 4 invariant [vehicles-keyed-by-own-id] forall v VehicleID :: has(vehiclesByID, v) ==> *vehiclesByID[v].ID == v
+//@   loop 4 invariant [idless-vehicles-have-no-id] forall k int :: 0 <= k && k < len(vehiclesWithNoID) ==> vehiclesWithNoID[k].ID == nil
 //@   loop 4 step [idless-vehicle-and-trip-point-at-each-other] tripsById[tripID].Vehicle == vehicle && vehicle.Trip == tripsById[tripID]
 //@   loop 5 invariant [trips-on-heap] (forall t TripID :: has(tripsById, t) ==> tripsById[t] != nil && fresh(tripsById[t])) && fresh(result.Trips) && len(result.Vehicles) == 0 && cap(result.Vehicles) == 0
 //@   loop 5 step [one-trip-emitted-per-key] len(result.Trips) == athead(5, len(result.Trips)) + 1 && result.Trips[len(result.Trips) - 1].ID == tripID
@@ -811,19 +825,31 @@ package gtfs
 //@   loop 5 step [no-association-keeps-the-reference] !has(tripIDToVehicleID, tripID) ==> result.Trips[len(result.Trips) - 1].Vehicle == athead(5, tripsById[tripID].Vehicle)
 //@   loop 5 invariant [storage] sinceLoop(result.Trips) && (forall t TripID :: has(tripsById, t) ==> beforeLoop(tripsById[t]))
 //@   loop 5 invariant [trips-keyed-by-own-id] forall t TripID :: has(tripsById, t) ==> tripsById[t].ID == t
-//@   loop 5 invariant [emitted-trips-are-visited-keys] forall k int :: 0 <= k && k < len(result.Trips) ==> visited(result.Trips[k].ID)
-//@   loop 5 invariant [emitted-trips-unique] forall a int, b int :: 0 <= a && a < b && b < len(result.Trips) ==> result.Trips[a].ID != result.Trips[b].ID
+//@   loop 5 invariant [vehicles-keyed-by-own-id] forall v VehicleID :: has(vehiclesByID, v) ==> *vehiclesByID[v].ID == v
+//@   loop 5 invariant [idless-vehicles-have-no-id] forall k int :: 0 <= k && k < len(vehiclesWithNoID) ==> vehiclesWithNoID[k].ID == nil
+//@   loop 5 invariant [emitted-trips-are-visited-keys using one-trip-emitted-per-key emitted-trips-kept] forall k int :: 0 <= k && k < len(result.Trips) ==> visited(result.Trips[k].ID)
+//@   loop 5 invariant [emitted-trips-unique using one-trip-emitted-per-key emitted-trips-kept key-not-emitted-before] forall a int, b int :: 0 <= a && a < b && b < len(result.Trips) ==> result.Trips[a].ID != result.Trips[b].ID
 //@   loop 6 invariant [vehicles-on-heap] (forall v VehicleID :: has(vehiclesByID, v) ==> vehiclesByID[v] != nil && fresh(vehiclesByID[v]) && vehiclesByID[v].ID != nil) && fresh(result.Vehicles)
 //@   loop 6 invariant [storage] sinceLoop(result.Vehicles) && (forall v VehicleID :: has(vehiclesByID, v) ==> beforeLoop(vehiclesByID[v]))
 //@   loop 6 step [one-vehicle-emitted-per-key] len(result.Vehicles) == athead(6, len(result.Vehicles)) + 1 && result.Vehicles[len(result.Vehicles) - 1].ID != nil
 //@   loop 6 step [emitted-vehicles-kept] forall k int :: 0 <= k && k < athead(6, len(result.Vehicles)) ==> result.Vehicles[k].ID == athead(6, result.Vehicles[k].ID)
+//@   loop 6 step [emitted-vehicle-carries-its-key] *result.Vehicles[len(result.Vehicles) - 1].ID == vehicleID
+//@   loop 6 step [vehicle-key-not-emitted-before] forall k int :: 0 <= k && k < athead(6, len(result.Vehicles)) ==> *result.Vehicles[k].ID != vehicleID
 //@   loop 6 step [emitted-entry-is-the-tables-vehicle] result.Vehicles[len(result.Vehicles) - 1] == *vehiclesByID[vehicleID]
 //@   loop 6 step [trip-reference-from-the-association-table] has(vehicleIDToTripID, vehicleID) ==> result.Vehicles[len(result.Vehicles) - 1].Trip == tripsById[vehicleIDToTripID[vehicleID]]
 //@   loop 6 step [no-association-keeps-the-reference] !has(vehicleIDToTripID, vehicleID) ==> result.Vehicles[len(result.Vehicles) - 1].Trip == athead(6, vehiclesByID[vehicleID].Trip)
 //@   loop 6 invariant [ids-present] forall k int :: 0 <= k && k < len(result.Vehicles) ==> result.Vehicles[k].ID != nil
+//@   loop 6 invariant [vehicles-keyed-by-own-id] forall v VehicleID :: has(vehiclesByID, v) ==> *vehiclesByID[v].ID == v
+//@   loop 6 invariant [idless-vehicles-have-no-id] forall k int :: 0 <= k && k < len(vehiclesWithNoID) ==> vehiclesWithNoID[k].ID == nil
+//@   loop 6 invariant [emitted-vehicles-are-visited-keys] forall k int :: 0 <= k && k < len(result.Vehicles) ==> visited(*result.Vehicles[k].ID)
+//@   loop 6 invariant [emitted-vehicles-unique] forall a int, b int :: 0 <= a && a < b && b < len(result.Vehicles) ==> *result.Vehicles[a].ID != *result.Vehicles[b].ID
 //@   loop 6 invariant [trips-sorted] forall a int, b int :: 0 <= a && a < b && b < len(result.Trips) ==> !result.Trips[b].ID.Less(result.Trips[a].ID)
 //@   loop 6 invariant [trips-unique] forall a int, b int :: 0 <= a && a < len(result.Trips) && 0 <= b && b < len(result.Trips) && a != b ==> result.Trips[a].ID != result.Trips[b].ID
 //@   loop 7 invariant [ctx] fresh(result.Vehicles) && (forall k int :: 0 <= k && k < len(vehiclesWithNoID) ==> vehiclesWithNoID[k] != nil)
+//@   loop 7 invariant [idless-vehicles-have-no-id] forall k int :: 0 <= k && k < len(vehiclesWithNoID) ==> vehiclesWithNoID[k].ID == nil
+//@   loop 7 step [idless-vehicle-appended] len(result.Vehicles) == athead(7, len(result.Vehicles)) + 1 && result.Vehicles[len(result.Vehicles) - 1].ID == nil
+//@   loop 7 step [emitted-vehicles-kept] forall k int :: 0 <= k && k < athead(7, len(result.Vehicles)) ==> result.Vehicles[k].ID == athead(7, result.Vehicles[k].ID)
+//@   loop 7 invariant [vehicles-with-an-id-unique using idless-vehicle-appended emitted-vehicles-kept] forall a int, b int :: 0 <= a && a < len(result.Vehicles) && 0 <= b && b < len(result.Vehicles) && a != b && result.Vehicles[a].ID != nil && result.Vehicles[b].ID != nil ==> *result.Vehicles[a].ID != *result.Vehicles[b].ID
 //@   loop 7 invariant [trips-sorted] forall a int, b int :: 0 <= a && a < b && b < len(result.Trips) ==> !result.Trips[b].ID.Less(result.Trips[a].ID)
 //@   loop 7 invariant [trips-unique] forall a int, b int :: 0 <= a && a < len(result.Trips) && 0 <= b && b < len(result.Trips) && a != b ==> result.Trips[a].ID != result.Trips[b].ID
 
